@@ -47,6 +47,14 @@ claimed = {
    text="The simulated network plays an outcome script per attempt of one call - connection refused, reset, EOF, i/o timeout after 1-20 s, or a status from {400,401,403,404,405,408,409,413,422,429,500,501,502,503,504,507,511} with varied bodies - of length up to clamp(MaxRetries)+2, ending at the real server (success, or a JSON-RPC error answer for an unregistered tool); configurations are drawn from the boundary grid MaxRetries {-1,0,1,2,3,10,11} x InitialBackoff {0,1ms,100ms,7s,30s,31s} x Factor {0.5,1,1.5,2,10,11} x MaxBackoff {0,50ms,1s,5min,6min}, WithSimpleRetry, or no retry option; the caller's context is cancelled during a wait, exactly at a wait's end, or during an attempt; Streamable and legacy SSE clients. Oracle written from the statement: attempts <= clamp+1; an attempt follows only a failure the statement lists as transient (never a server answer or other 4xx); every wait equals min(Initial x Factor^(k-1), Max) of the clamped configuration exactly on the simulated clock; cancellation returns in zero simulated time with the context's error and no later attempt; Validate is idempotent and lands in the documented ranges; without the option exactly one attempt.",
    note="Scripts are sampled, not exhaustively enumerated (the space of scripts up to length 12 over 21 outcomes is too large); network latency is zero in this scenario so that waits can be compared exactly. Only the only-if direction of the classification is demanded.",
    tech=TECH+"scripted per-attempt network outcomes, exact back-off comparison on the simulated clock"),
+ "C04": dict(cat="exploration", ref="DESIGN.md §6 C04",
+   text="Raw reference peers (1-4 concurrent actors) execute tape-generated histories over {initialize, request, notification, response-post, GET, stream-close, DELETE} x {no id, own live id, an id known to be deleted, never-issued id, id made by another server instance} against stateful (post-sse, json), stateless and sessions-disabled servers with GET enabled or disabled. An executable reference model (set of live ids + expected outcome class per operation) predicts every status; checked: ids issued only by an id-less initialize, unique, visible ASCII and the hex encoding of >=16 bytes actually drawn from crypto/rand during that initialize (seeded-reader seam), same id echoed on every answer, 400 without id, 404 for unknown/foreign/deleted ids without state change, DELETE ends the session and its GET stream reaches EOF, stateless: no Mcp-Session-Id header anywhere, GET 405, equal answers to equal requests after different prefixes; Server.GetActiveSessions() equals the model's live set after every step (sequential histories) and at the end (concurrent ones).",
+   note="Idle gaps stay far below the 1 h expiry so the sweeper never fires (expiry is not part of the statement). Actors only use ids whose state is known to them, so expectations do not depend on the interleaving.",
+   tech=TECH+"refinement against an executable reference model of the session state machine"),
+ "C06": dict(cat="exploration", ref="DESIGN.md §6 C06",
+   text="An adversarial raw peer per server kind/mode (json, post-sse, stateless, sessions disabled, legacy SSE, stdio) sends batches from a systematically enumerated lattice - every field of every valid request x {removed, null, true, 0, -1, 1.5, 2^53+1, '', 'x', [], [1,'a'], {}, {a:1}} - plus garbage (non-JSON, truncated, scalars, 3000-deep nesting, 300 KB request, duplicate keys, batch arrays, unknown methods, responses never asked for) and HTTP-level garbage (verbs, paths, headers, session ids), interleaved by the scheduler with 1-2 well-behaved library clients on the same server. Oracle: no panic in any server goroutine or handler (recorded by the go-statement wrapper and the simulated net/http recovery), no livelock, no lock-blocked task, clearly unservable inputs answered by a 4xx/5xx status or a JSON-RPC error, ping on the same and on a fresh connection afterwards, well-behaved calls all succeed with their own answers, library goroutine count after the batch not above the count before it.",
+   note="Coverage-guided fuzzing (named in the quantifier) is another technique and is not claimed. Weaker reading: a message that reads as a response to a request never sent may be accepted (202) as long as nothing happens; ids of odd JSON types and a missing jsonrpc member may be served leniently.",
+   tech=TECH+"enumerated field x JSON-type lattice interleaved with well-behaved traffic; panic/deadlock/leak oracle"),
 }
 NA = {
  "C18": "pure relation between two translators (schema generator vs encoding/json) over types and values: no schedule, clock, fault or interleaving for a simulator to decide (DESIGN.md §7)",
